@@ -339,6 +339,16 @@ class SNum:
     def __repr__(self):
         return f"SNum({z3.simplify(self.t)})"
 
+    def __format__(self, spec):
+        """formatting a symbolic number into a string gives an opaque token that int() turns back into the term
+        (used for paths like 'patch_{:d}')"""
+        c = const_value(self.t)
+        if c is not None:
+            return format(c if not isinstance(c, Fraction) else float(c), spec)
+        if spec not in ("", "d"):
+            raise Unsupported(f"format spec '{spec}' on a symbolic number")
+        return token_for(self)
+
     # numpy-scalar compatible helpers
     def item(self):
         return self
@@ -404,6 +414,28 @@ def _pow(base, exp):
         return SNum(r)
     from . import realfn
     return realfn.power(base, exp)
+
+
+TOKENS = []
+_TOK_OPEN, _TOK_CLOSE = "\u27e6", "\u27e7"
+
+
+def token_for(v):
+    for k, t in enumerate(TOKENS):
+        if t.t.eq(v.t):
+            return f"{_TOK_OPEN}{k}{_TOK_CLOSE}"
+    TOKENS.append(v)
+    return f"{_TOK_OPEN}{len(TOKENS) - 1}{_TOK_CLOSE}"
+
+
+def parse_token(s):
+    """the symbolic number a token string stands for, or None"""
+    if isinstance(s, str) and s.startswith(_TOK_OPEN) and s.endswith(_TOK_CLOSE):
+        try:
+            return TOKENS[int(s[1:-1])]
+        except (ValueError, IndexError):
+            return None
+    return None
 
 
 def num(x):
